@@ -193,7 +193,20 @@ class Verifier:
                 raise Unsupported(f"contract predicate {fnode.name} may raise {o.exc} (line {o.line})")
             e = o.cond[base:]
             if assumptions_out is not None:
-                assumptions_out += [c_ for c_ in e if is_assumed(c_)]
+                # the postconditions assumed along THIS evaluation path hold under its branch decisions only: handing them out
+                # unguarded would conjoin facts of different paths (e.g. `result == time IoU` from one branch and `result ==
+                # area ratio` from another, about the same pure function value) -- contradictory or simply false elsewhere
+                # -- each fact is guarded by exactly the branch decisions that PRECEDE it on the path (guarding by the later ones
+                # too would lose it on sibling branches that were pruned as infeasible because of that very fact)
+                seen_f = getattr(assumptions_out, "_seen", None)
+                prefix = []
+                for c_ in e:
+                    if is_assumed(c_):
+                        f_ = z3.Implies(z3.And(*prefix), c_) if prefix else c_
+                        if not any(f_.eq(g_) for g_ in assumptions_out):
+                            assumptions_out.append(f_)
+                    else:
+                        prefix.append(c_)
                 e = [c_ for c_ in e if not is_assumed(c_)]
             elif any(is_assumed(c_) for c_ in e):
                 raise Unsupported(f"contract predicate {fnode.name} calls a function under contract (only lemmas may)")
@@ -465,8 +478,14 @@ class Verifier:
         goal = self.pred_node(ex, m, fnode, values, Path([], {}), assumptions_out=assumed)
         side = [Obligation(f"{prop}/lemma/{oid}/{label}#{j}", "call-pre", list(ex.bg) + list(cond) + [z3.Not(g)],
                            inputs=values, meta=dict(lemma=fname)) for j, (label, cond, g) in enumerate(ex.side)]
-        return [Obligation(f"{prop}/lemma/{oid}", "lemma" if expect == "unsat" else "canary", list(ex.bg) + assumed + [z3.Not(goal)],
-                           expect=expect, inputs=values, meta=dict(lemma=fname, mode=mode))] + side
+        out = [Obligation(f"{prop}/lemma/{oid}", "lemma" if expect == "unsat" else "canary", list(ex.bg) + assumed + [z3.Not(goal)],
+                          expect=expect, inputs=values, meta=dict(lemma=fname, mode=mode))] + side
+        if expect == "unsat":
+            # the hypotheses the lemma is proved from (background facts and the assumed postconditions of the functions under
+            # contract it calls) must be jointly satisfiable -- otherwise the lemma would hold vacuously
+            out.append(Obligation(f"{prop}/lemma/{oid}/cover-pre", "cover", list(ex.bg) + assumed, expect="sat", inputs=values,
+                                  meta=dict(lemma=fname)))
+        return out
 
 
 
